@@ -74,8 +74,13 @@ def mk_entity(elem, id_):
     if "rec" in elem:
         from harness import recutil
         rec = recutil.mk_record(elem["rec"])
+    elif "id" in elem and elem["id"] is None:
+        # a record built without identifiers (Biopython's "<unknown id>" defaults)
+        from Bio.Seq import Seq
+        from moclo.record import CircularRecord
+        rec = CircularRecord(Seq(elem["seq"]))
     else:
-        rec = mk_circular(elem["seq"], id_)
+        rec = mk_circular(elem["seq"], elem.get("id", id_))
     return cls(rec)
 
 
